@@ -16,6 +16,8 @@ import (
 	"github.com/icon-project/goloop/common"
 	"github.com/icon-project/goloop/common/codec"
 	"github.com/icon-project/goloop/common/db"
+	"github.com/icon-project/goloop/common/merkle"
+	"github.com/icon-project/goloop/common/trie/trie_manager"
 	"github.com/icon-project/goloop/module"
 	"github.com/icon-project/goloop/service/transaction"
 	"github.com/icon-project/goloop/service/txresult"
@@ -28,7 +30,7 @@ type step struct {
 	I        int             `json:"i"`
 	N        int             `json:"n"`
 	Res      json.RawMessage `json:"res"`
-	Reopened bool            `json:"reopened"`
+	Reopened string          `json:"reopened"`
 }
 
 type run struct {
@@ -72,7 +74,8 @@ type list interface {
 	name() string
 	iterate(each func(item []byte, idx int, hasIdx bool) error) error
 	get(i int) ([]byte, error)
-	reopen() (list, error)
+	reopen(how string) (list, error)
+	proof(i int, key []byte) ([]byte, error) // item bytes proven for index i, nil if the list has no proof API
 	item(i int) []byte
 }
 
@@ -106,19 +109,35 @@ func (t *txList) get(i int) ([]byte, error) {
 	}
 	return tx.ID(), nil
 }
-func (t *txList) reopen() (list, error) {
+func (t *txList) proof(i int, key []byte) ([]byte, error) { return nil, errNoProofAPI }
+func (t *txList) reopen(how string) (list, error) {
 	if t.kind == "txv1" {
 		return t, nil
 	}
 	if err := t.l.Flush(); err != nil {
 		return nil, err
 	}
+	if how == "sync" { // rebuild the list in another database from its hash through a merkle builder
+		dst := db.NewMapDB()
+		cc := merkle.NewCopyContext(t.p.dbase, dst)
+		l2 := transaction.NewTransactionListWithBuilder(cc.Builder(), t.l.Hash())
+		if err := cc.Run(); err != nil {
+			return nil, fmt.Errorf("merkle copy failed: %v", err)
+		}
+		if t.p.salt%2 == 0 {
+			l2 = transaction.NewTransactionListFromHash(dst, t.l.Hash())
+		}
+		return &txList{t.p, l2, t.kind}, nil
+	}
 	return &txList{t.p, transaction.NewTransactionListFromHash(t.p.dbase, t.l.Hash()), t.kind}, nil
 }
+
+var errNoProofAPI = fmt.Errorf("no proof API")
 
 type rcList struct {
 	p *pools
 	l module.ReceiptList
+	d db.Database // the database the list lives in when it was rebuilt elsewhere
 }
 
 func (t *rcList) name() string      { return "receipt" }
@@ -145,16 +164,46 @@ func (t *rcList) get(i int) ([]byte, error) {
 	}
 	return r.Bytes(), nil
 }
-func (t *rcList) reopen() (list, error) {
+func (t *rcList) proof(i int, key []byte) ([]byte, error) {
+	pf, err := t.l.GetProof(i)
+	if err != nil {
+		return nil, err
+	}
+	// verify the proof against the list hash with the real prover
+	obj, err := trie_manager.NewImmutableForObject(t.dbase(), t.l.Hash(), txresult.ReceiptType).Prove(key, pf)
+	if err != nil {
+		return nil, fmt.Errorf("proof does not verify: %v", err)
+	}
+	return obj.Bytes(), nil
+}
+func (t *rcList) dbase() db.Database {
+	if t.d != nil {
+		return t.d
+	}
+	return t.p.dbase
+}
+func (t *rcList) reopen(how string) (list, error) {
 	if err := t.l.Flush(); err != nil {
 		return nil, err
 	}
-	return &rcList{t.p, txresult.NewReceiptListFromHash(t.p.dbase, t.l.Hash())}, nil
+	if how == "sync" {
+		dst := db.NewMapDB()
+		cc := merkle.NewCopyContext(t.p.dbase, dst)
+		l2 := txresult.NewReceiptListWithBuilder(cc.Builder(), t.l.Hash())
+		if err := cc.Run(); err != nil {
+			return nil, fmt.Errorf("merkle copy failed: %v", err)
+		}
+		if t.p.salt%2 == 0 {
+			l2 = txresult.NewReceiptListFromHash(dst, t.l.Hash())
+		}
+		return &rcList{t.p, l2, dst}, nil
+	}
+	return &rcList{t.p, txresult.NewReceiptListFromHash(t.p.dbase, t.l.Hash()), nil}, nil
 }
 
 type built struct {
 	fresh    []list
-	reopened []list
+	reopened map[string][]list
 }
 
 func (p *pools) build(n int) (*built, error) {
@@ -165,7 +214,7 @@ func (p *pools) build(n int) (*built, error) {
 	rcts := append([]txresult.Receipt{}, p.rcts[:n]...)
 	return &built{fresh: []list{
 		&txList{p, transaction.NewTransactionListFromSlice(p.dbase, txs), "tx"},
-		&rcList{p, txresult.NewReceiptListFromSlice(p.dbase, rcts)},
+		&rcList{p, txresult.NewReceiptListFromSlice(p.dbase, rcts), nil},
 		&txList{p, transaction.NewTransactionListV1FromSlice(txs), "txv1"},
 	}}, nil
 }
@@ -226,6 +275,29 @@ func doStep(l list, s step) (string, string) {
 		} else if got == nil || !bytes.Equal(got, l.item(want)) {
 			return "get", fmt.Sprintf("Get(%d) on a list of %d items does not return item %d (err=%v)", s.I, s.N, want, err)
 		}
+	case "proof":
+		var want struct {
+			Item int   `json:"item"`
+			Key  []int `json:"key"`
+		}
+		if err := json.Unmarshal(s.Res, &want); err != nil {
+			return "driver", err.Error()
+		}
+		kb := make([]byte, len(want.Key))
+		for i, x := range want.Key {
+			kb[i] = byte(x)
+		}
+		got, err := l.proof(s.I, kb)
+		if err == errNoProofAPI {
+			return "", ""
+		}
+		if want.Item < 0 {
+			if got != nil {
+				return "proof", fmt.Sprintf("GetProof(%d) on a list of %d items proves an item, spec says there is none", s.I, s.N)
+			}
+		} else if got == nil || !bytes.Equal(got, l.item(want.Item)) {
+			return "proof", fmt.Sprintf("GetProof(%d) on a list of %d items does not prove item %d under the spec's key %x (err=%v)", s.I, s.N, want.Item, kb, err)
+		}
 	case "getall":
 		order, err := expand(s.Res)
 		if err != nil {
@@ -280,13 +352,16 @@ func TestReplay(t *testing.T) {
 				continue
 			case "reopen":
 				if b.reopened == nil {
+					b.reopened = map[string][]list{}
+				}
+				if b.reopened[s.Reopened] == nil {
 					for _, l := range b.fresh {
-						r, err := l.reopen()
+						r, err := l.reopen(s.Reopened)
 						if err != nil {
 							key, what = "list:"+l.name()+":reopen", fmt.Sprintf("Flush/reopen of a list of %d items failed: %v", n, err)
 							break
 						}
-						b.reopened = append(b.reopened, r)
+						b.reopened[s.Reopened] = append(b.reopened[s.Reopened], r)
 					}
 				}
 				continue
@@ -305,12 +380,12 @@ func TestReplay(t *testing.T) {
 					key, what = "list:receipt:key", fmt.Sprintf("receipt list key of index %d is %x (err=%v), spec says %x", s.I, got, err, wb)
 				}
 			default:
-				if s.Reopened && b.reopened != nil {
-					lists = b.reopened
+				if s.Reopened != "no" && b.reopened[s.Reopened] != nil {
+					lists = b.reopened[s.Reopened]
 				}
 				for _, l := range lists {
 					if k, w := doStep(l, s); w != "" {
-						key, what = "list:"+l.name()+":"+k, fmt.Sprintf("step %d (%s list%s): %s", si, l.name(), map[bool]string{true: ", reopened from its hash", false: ""}[s.Reopened], w)
+						key, what = "list:"+l.name()+":"+k, fmt.Sprintf("step %d (%s list%s): %s", si, l.name(), map[string]string{"hash": ", reopened from its hash", "sync": ", rebuilt through a merkle builder", "no": ""}[s.Reopened], w)
 						break
 					}
 				}
